@@ -359,8 +359,8 @@ def _partial_binding_programs(run, rng, quick, qc, add):
         wide = rng.sample(wide, 200)
     for p in shaped + wide:
         # a row returned twice shows only where every variable is selected
-        reps = (30 if quick else 120) if len(p["sel"]) == 3 else (4 if quick else 20)
-        for _ in range(reps if p in shaped else (4 if quick else 12)):
+        reps = (30 if quick else 80) if len(p["sel"]) == 3 else (4 if quick else 12)
+        for _ in range(reps if p in shaped else (4 if quick else 5)):
             W = datasets.random_world(rng, rng.randint(5, 8))
             ints = (0, 1) if rng.random() < 0.5 else (0, 1, 1, 2)
             for o in W["objs"]:
